@@ -188,6 +188,71 @@ pub struct SparqlDatabase {
 }
 
 #[allow(dead_code)]
+/// Character data of the RDF/XML property element being read. Text and
+/// entity references arrive as separate events and form one literal.
+#[derive(Default)]
+struct RdfXmlLiteral {
+    text: Option<String>,
+    language: Option<String>,
+}
+
+impl RdfXmlLiteral {
+    fn start(&mut self, element: &quick_xml::events::BytesStart<'_>) {
+        let is_reference = element
+            .attributes()
+            .filter_map(Result::ok)
+            .any(|attribute| attribute.key == QName(b"rdf:resource"));
+        self.text = (!is_reference).then(String::new);
+        self.language = element
+            .attributes()
+            .filter_map(Result::ok)
+            .find(|attribute| attribute.key == QName(b"xml:lang"))
+            .map(|attribute| rdf_xml_attribute(&attribute));
+    }
+
+    fn push_text(&mut self, text: &str) {
+        if let Some(literal) = &mut self.text {
+            literal.push_str(text);
+        }
+    }
+
+    fn push_reference(&mut self, reference: &quick_xml::events::BytesRef<'_>) {
+        let resolved = match reference.resolve_char_ref() {
+            Ok(Some(character)) => Some(character.to_string()),
+            _ => std::str::from_utf8(reference)
+                .ok()
+                .and_then(quick_xml::escape::resolve_predefined_entity)
+                .map(str::to_string),
+        };
+        if let (Some(literal), Some(resolved)) = (&mut self.text, resolved) {
+            literal.push_str(&resolved);
+        }
+    }
+
+    /// A node element inside the property element: its content is not a literal.
+    fn cancel(&mut self) {
+        self.text = None;
+    }
+
+    /// The literal of the element that just ended, written like the
+    /// N-Triples loader stores it (`text@lang`).
+    fn finish(&mut self) -> Option<String> {
+        let text = self.text.take()?;
+        let language = self.language.take();
+        Some(match language {
+            Some(language) if !language.is_empty() => format!("{text}@{language}"),
+            _ => text,
+        })
+    }
+}
+
+fn rdf_xml_attribute(attribute: &quick_xml::events::attributes::Attribute<'_>) -> String {
+    attribute
+        .unescape_value()
+        .map(|value| value.into_owned())
+        .unwrap_or_else(|_| String::from_utf8_lossy(&attribute.value).into_owned())
+}
+
 impl SparqlDatabase {
     pub fn new() -> Self {
         Self {
@@ -645,6 +710,7 @@ impl SparqlDatabase {
 
         let mut current_subject = Vec::with_capacity(128);
         let mut current_predicate = Vec::with_capacity(128);
+        let mut literal = RdfXmlLiteral::default();
 
         let (sender, receiver) = unbounded::<Vec<Triple>>();
         let dictionary = Arc::clone(&self.dictionary);
@@ -698,30 +764,36 @@ impl SparqlDatabase {
                             }
                         }
                         QName(b"rdf:Description") => {
+                            literal.cancel();
                             for attr in e.attributes().filter_map(Result::ok) {
                                 if attr.key == QName(b"rdf:about") {
                                     current_subject.truncate(0);
-                                    current_subject.extend_from_slice(&attr.value);
+                                    current_subject
+                                        .extend_from_slice(rdf_xml_attribute(&attr).as_bytes());
                                 }
                             }
                         }
                         QName(b"rdfs:Class") | QName(b"rdf:type") => {
                             current_predicate.truncate(0);
                             current_predicate.extend_from_slice(b"rdf:type");
+                            literal.start(e);
                         }
                         QName(b"rdfs:subClassOf") => {
                             current_predicate.truncate(0);
                             current_predicate.extend_from_slice(b"rdfs:subClassOf");
+                            literal.start(e);
                         }
                         QName(b"rdfs:label") => {
                             current_predicate.truncate(0);
                             current_predicate.extend_from_slice(b"rdfs:label");
+                            literal.start(e);
                         }
                         name => {
                             let name_str =
                                 std::str::from_utf8(name.as_ref()).unwrap_or("").to_string();
                             let resolved_predicate = self.resolve_term(&name_str);
                             current_predicate = resolved_predicate.clone().into_bytes();
+                            literal.start(e);
                         }
                     },
                     Ok(Event::Empty(ref e)) => {
@@ -730,7 +802,7 @@ impl SparqlDatabase {
                             let mut object = Vec::with_capacity(128);
                             for attr in e.attributes().filter_map(Result::ok) {
                                 if attr.key == QName(b"rdf:resource") {
-                                    object.extend_from_slice(&attr.value);
+                                    object.extend_from_slice(rdf_xml_attribute(&attr).as_bytes());
                                 }
                             }
                             if !object.is_empty() {
@@ -752,34 +824,31 @@ impl SparqlDatabase {
                         }
                     }
                     Ok(Event::Text(e)) => {
-                        // Use Reader's decode method and trim whitespace
-                        if let Ok(object_str) = reader.decoder().decode(e.as_ref()) {
-                            let trimmed_object = object_str.trim();
-                            // Skip empty or whitespace-only text
-                            if !trimmed_object.is_empty() {
-                                if let Ok(subject_str) = std::str::from_utf8(&current_subject) {
-                                    if let Ok(predicate_str) =
-                                        std::str::from_utf8(&current_predicate)
-                                    {
-                                        let resolved_predicate = self.resolve_term(predicate_str);
-                                        // Lock the dictionary for encoding
-                                        let mut dict = dictionary.write().unwrap();
-                                        let triple = Triple {
-                                            subject: dict.encode(subject_str),
-                                            predicate: dict.encode(&resolved_predicate),
-                                            object: dict.encode(trimmed_object),
-                                        };
-                                        drop(dict); // Release the lock
-                                        triples.push(triple);
-                                    }
-                                }
-                            }
+                        if let Ok(text) = reader.decoder().decode(e.as_ref()) {
+                            literal.push_text(&text);
                         }
                     }
+                    Ok(Event::GeneralRef(e)) => literal.push_reference(&e),
                     Ok(Event::End(ref e)) => {
                         if e.name() == QName(b"rdf:Description") {
                             current_subject.truncate(0);
                             current_predicate.truncate(0);
+                        } else if let Some(object_str) = literal.finish() {
+                            if let (Ok(subject_str), Ok(predicate_str)) = (
+                                std::str::from_utf8(&current_subject),
+                                std::str::from_utf8(&current_predicate),
+                            ) {
+                                let resolved_predicate = self.resolve_term(predicate_str);
+                                // Lock the dictionary for encoding
+                                let mut dict = dictionary.write().unwrap();
+                                let triple = Triple {
+                                    subject: dict.encode(subject_str),
+                                    predicate: dict.encode(&resolved_predicate),
+                                    object: dict.encode(&object_str),
+                                };
+                                drop(dict); // Release the lock
+                                triples.push(triple);
+                            }
                         }
                     }
                     Ok(Event::Eof) => break,
@@ -823,6 +892,7 @@ impl SparqlDatabase {
 
         let mut current_subject = Vec::with_capacity(128);
         let mut current_predicate = Vec::with_capacity(128);
+        let mut literal = RdfXmlLiteral::default();
 
         // First, read prefixes before spawning worker threads
         let mut buf = Vec::new();
@@ -868,29 +938,35 @@ impl SparqlDatabase {
             match xml_reader.read_event_into(&mut buf) {
                 Ok(Event::Start(ref e)) => match e.name() {
                     QName(b"rdf:Description") => {
+                        literal.cancel();
                         for attr in e.attributes().filter_map(Result::ok) {
                             if attr.key == QName(b"rdf:about") {
                                 current_subject.clear();
-                                current_subject.extend_from_slice(&attr.value);
+                                current_subject
+                                    .extend_from_slice(rdf_xml_attribute(&attr).as_bytes());
                             }
                         }
                     }
                     QName(b"rdfs:Class") | QName(b"rdf:type") => {
                         current_predicate.clear();
                         current_predicate.extend_from_slice(b"rdf:type");
+                        literal.start(e);
                     }
                     QName(b"rdfs:subClassOf") => {
                         current_predicate.clear();
                         current_predicate.extend_from_slice(b"rdfs:subClassOf");
+                        literal.start(e);
                     }
                     QName(b"rdfs:label") => {
                         current_predicate.clear();
                         current_predicate.extend_from_slice(b"rdfs:label");
+                        literal.start(e);
                     }
                     name => {
                         let name_str = std::str::from_utf8(name.as_ref()).unwrap_or("").to_string();
                         let resolved_predicate = self.resolve_term(&name_str);
                         current_predicate = resolved_predicate.clone().into_bytes();
+                        literal.start(e);
                     }
                 },
                 Ok(Event::Empty(ref e)) => {
@@ -899,7 +975,7 @@ impl SparqlDatabase {
                         let mut object = Vec::with_capacity(128);
                         for attr in e.attributes().filter_map(Result::ok) {
                             if attr.key == QName(b"rdf:resource") {
-                                object.extend_from_slice(&attr.value);
+                                object.extend_from_slice(rdf_xml_attribute(&attr).as_bytes());
                             }
                         }
                         if !object.is_empty() {
@@ -920,31 +996,30 @@ impl SparqlDatabase {
                     }
                 }
                 Ok(Event::Text(e)) => {
-                    // Use Reader's decode method and trim whitespace
-                    if let Ok(object_str) = xml_reader.decoder().decode(e.as_ref()) {
-                        let trimmed_object = object_str.trim();
-                        // Skip empty or whitespace-only text
-                        if !trimmed_object.is_empty() {
-                            if let Ok(subject_str) = std::str::from_utf8(&current_subject) {
-                                if let Ok(predicate_str) = std::str::from_utf8(&current_predicate) {
-                                    let resolved_predicate = self.resolve_term(predicate_str);
-                                    let mut dict = self.dictionary.write().unwrap();
-                                    let triple = Triple {
-                                        subject: dict.encode(subject_str),
-                                        predicate: dict.encode(&resolved_predicate),
-                                        object: dict.encode(trimmed_object),
-                                    };
-                                    drop(dict);
-                                    triples.push(triple);
-                                }
-                            }
-                        }
+                    if let Ok(text) = xml_reader.decoder().decode(e.as_ref()) {
+                        literal.push_text(&text);
                     }
                 }
+                Ok(Event::GeneralRef(e)) => literal.push_reference(&e),
                 Ok(Event::End(ref e)) => {
                     if e.name() == QName(b"rdf:Description") {
                         current_subject.clear();
                         current_predicate.clear();
+                    } else if let Some(object_str) = literal.finish() {
+                        if let (Ok(subject_str), Ok(predicate_str)) = (
+                            std::str::from_utf8(&current_subject),
+                            std::str::from_utf8(&current_predicate),
+                        ) {
+                            let resolved_predicate = self.resolve_term(predicate_str);
+                            let mut dict = self.dictionary.write().unwrap();
+                            let triple = Triple {
+                                subject: dict.encode(subject_str),
+                                predicate: dict.encode(&resolved_predicate),
+                                object: dict.encode(&object_str),
+                            };
+                            drop(dict);
+                            triples.push(triple);
+                        }
                     }
                 }
                 Ok(Event::Eof) => break,
